@@ -175,6 +175,21 @@ CLAIMS["C15"] = (
     "Trusted: numpy nanmean/nanstd/ptp semantics. Not decided: NaN propagation inside reductions; the constant-trait corner of tstd/tvar(unscale=True).",
     "DESIGN.md §4 C15")
 
+CLAIMS["C05"] = (
+    "value numbering with an algebraic normal form and contribution canonicalisation: sibling congruence across the four decision encodings and spec "
+    "congruence with a reference term per criterion; structural rules for evalfn wiring, Cholesky factor, factory forwarding, chunk slice coupling and "
+    "loop-variant data (ast)",
+    "Decides for all 56 non-simulating latentfn bodies (16 criterion families): after rewriting the subset form (1/len(x))*D[x].sum(k) and the weight form "
+    "(x/sum(x)).D to one contrib(D,k) atom, every encoding equals the criterion's reference term (sign, data attribute, contracted axis, norm/abs wrapper, "
+    "concatenation order) - hence the encodings agree with each other - and the decision vector occurs nowhere else (scale and order invariance by "
+    "construction); evalfn applies each declared weight and transformation to one latent value without in-place updates and _evaluate fills F,G,H in order; "
+    "all 13 Cholesky sites build cholesky(kinship).T; 66 factories forward same-named arguments; the chunked OHV builder tiles [0,n) and touches only "
+    "[rst:rsp] per chunk; usefulness = epgc.bv[cross] + i*sqrt(var[cross]); per-index loops store index-dependent values. Numerical agreement to rounding is "
+    "not decided.",
+    "Trusted: the reference terms (table B.2 in DESIGN.md) transcribe the class docstrings; numpy dot/norm/bincount semantics. The zero-sum guard "
+    "`xsum if abs(xsum) >= 1e-10 else 1` is treated as the identity (it differs only at sum(x)=0, outside the decision space). RealLookAhead* simulates and is not claimed.",
+    "DESIGN.md §4 C05")
+
 NOT_YET = "rule set not built yet (build in progress; see DESIGN.md §8)"
 NA = {}
 
